@@ -85,6 +85,12 @@ func (t *c17map) ref(r string) any {
 		return t.b
 	case "A2":
 		return t.a2
+	case "F": // plain values as references
+		return false
+	case "Z":
+		return 0
+	case "E":
+		return ""
 	}
 	return nil
 }
@@ -101,6 +107,12 @@ func (t *c17map) look(ch rune) string {
 		return "B"
 	case v == any(t.a2):
 		return "A2"
+	case v == any(false):
+		return "F"
+	case v == any(0):
+		return "Z"
+	case v == any(""):
+		return "E"
 	}
 	return fmt.Sprintf("other:%T", v)
 }
@@ -113,9 +125,14 @@ func (s *markState) NextToken(scanner sio.IScanner, tokenizer tokenizers.ITokeni
 	return tokenizers.NewToken(100+s.id, "m", 0, 0)
 }
 
+// the same as a function type (values of it cannot be compared with ==)
+type markFunc func(scanner sio.IScanner) *tokenizers.Token
+
+func (f markFunc) NextToken(scanner sio.IScanner, tokenizer tokenizers.ITokenizer) *tokenizers.Token { return f(scanner) }
+
 type c17read struct {
 	t    *generic.GenericTokenizer
-	a, b *markState
+	a, b tokenizers.ITokenizerState
 }
 
 func (t *c17read) add(lo, hi rune, ref string) {
@@ -228,6 +245,13 @@ func execC17(seg []Ev) []Ev {
 				g := generic.NewGenericTokenizer()
 				g.ClearCharacterStates()
 				t = &c17read{t: g, a: &markState{0}, b: &markState{1}}
+			case "tokfunc":
+				g := generic.NewGenericTokenizer()
+				g.ClearCharacterStates()
+				mk := func(id int) markFunc {
+					return func(sc sio.IScanner) *tokenizers.Token { sc.Read(); return tokenizers.NewToken(100+id, "m", 0, 0) }
+				}
+				t = &c17read{t: g, a: mk(0), b: mk(1)}
 			case "tokenizer":
 				g := generic.NewGenericTokenizer()
 				g.ClearCharacterStates()
@@ -309,7 +333,7 @@ func cloneEv(e Ev) Ev {
 
 func genC17(g *Gen) {
 	ops := c17ops()
-	targets := []string{"map", "tokenizer", "word", "ws", "ws0", "word0", "tokread"}
+	targets := []string{"map", "tokenizer", "word", "ws", "ws0", "word0", "tokread", "tokfunc"}
 	// exhaustive histories of length <= 2 on the map and the tokenizer, length 1 and a sample of 2 on the classes
 	for _, tg := range targets {
 		for _, o1 := range ops {
@@ -322,7 +346,7 @@ func genC17(g *Gen) {
 			if lo > hi {
 				continue
 			}
-			for _, order := range [][]string{{"A", "A2"}, {"A2", "A"}, {"B", "A", "A2"}, {"A", "A2", "nil", "A2", "A"}} {
+			for _, order := range [][]string{{"A", "A2"}, {"A2", "A"}, {"B", "A", "A2"}, {"A", "A2", "nil", "A2", "A"}, {"A", "F"}, {"F", "Z", "E"}, {"E", "nil", "Z"}, {"nil", "F", "B"}} {
 				seg := []Ev{{"op": "new", "target": "map"}}
 				for _, r := range order {
 					seg = append(seg, Ev{"op": "add", "lo": lo, "hi": hi, "ref": r})
@@ -337,9 +361,12 @@ func genC17(g *Gen) {
 				{"op": "add", "lo": rg[0], "hi": rg[0], "ref": "nil"}, {"op": "add", "lo": rg[0], "hi": rg[1], "ref": "B"}, {"op": "clear"}, {"op": "add", "lo": rg[0], "hi": rg[1], "ref": "A"}})
 		}
 	}
-	for _, tg := range []string{"map", "tokenizer", "tokread"} {
+	for _, tg := range []string{"map", "tokenizer", "tokread", "tokfunc"} {
 		for _, o1 := range ops {
 			for _, o2 := range ops {
+				if tg == "tokfunc" && (len(fmt.Sprint(o1, o2))%4 != 0) && !g.Thorough() {
+					continue
+				}
 				g.Run("exhaustive-2:"+tg, []Ev{{"op": "new", "target": tg}, cloneEv(o1), cloneEv(o2)})
 			}
 		}
